@@ -22,7 +22,7 @@ from common import REPO
 HERE = Path(__file__).resolve().parent
 PY = sys.executable
 
-GEN = dict(kw_rate=0.03, docs=0.4, private_rate=0.25, unique_top_names=False, doc_types="mixed", infer_returns=0.3, ties=0.5)
+GEN = dict(kw_rate=0.03, docs=0.4, private_rate=0.25, unique_top_names=False, doc_types="mixed", infer_returns=0.3, ties=0.5, dual=0.5)
 
 
 def digest(out: Path) -> dict[str, str]:
